@@ -363,6 +363,7 @@ def gen_plan(seed, cfg):
         'dup_in_batch': r.random() < 0.25,
         'many': r.random() < 0.2,
     }
+    swarm['threads'] = core.rng(seed, 'execsim', mode, 'threads').random() < 0.3
     rp = core.rng(seed, 'execsim', mode, 'pad')
     swarm['pad'] = rp.choice([0, 0, 1, 2, 3]) if swarm['beyond'] else 0
     swarm.update(cfg.get('swarm', {}))
@@ -650,21 +651,64 @@ def execute(plan, ctx):
             aimed_at[k] = tuple(it['tg'])
         return c
 
-    # ---- run the history, recording outcomes
-    for i, op in enumerate(plan['ops']):
+    # ---- run the history, recording outcomes.  On some runs every logical client is a real thread and the operations
+    # are handed from thread to thread in plan order - strictly one at a time, nothing runs concurrently: which
+    # thread asks must not matter to the answer
+    pending = list(enumerate(plan['ops']))
+    if plan['swarm'].get('threads'):
+        import threading
+        n_cl = max(1, plan['swarm'].get('n_clients', 1))
+        turn = threading.Condition()
+        state = {'next': 0, 'err': None}
+
+        def worker(cid):
+            while True:
+                with turn:
+                    while state['err'] is None and state['next'] < len(pending) and (pending[state['next']][1].get('client', 0) % n_cl) != cid:
+                        turn.wait()
+                    if state['err'] is not None or state['next'] >= len(pending):
+                        turn.notify_all()
+                        return
+                    i_, op_ = pending[state['next']]
+                try:
+                    step(i_, op_)
+                except BaseException as e:      # harness failure inside a worker
+                    import traceback
+                    with turn:
+                        state['err'] = traceback.format_exc()
+                        turn.notify_all()
+                    return
+                with turn:
+                    state['next'] += 1
+                    turn.notify_all()
+
+        def run_threads():
+            ths = [threading.Thread(target=worker, args=(c_,), name='client-%d' % c_, daemon=True) for c_ in range(n_cl)]
+            for t_ in ths:
+                t_.start()
+            for t_ in ths:
+                t_.join()
+            if state['err'] is not None:
+                raise core.HarnessError('client thread failed: ' + state['err'][-600:])
+            probe('operations_handed_between_threads', len(pending))
+    else:
+        run_threads = None
+
+    def step(i, op):
+        nonlocal clock_ns
         kind = op['op']
         if kind == 'clock':
             clock_ns += op['add_s'] * 10**9
             simclock.set_ns(clock_ns)
             log.append({'i': i, 'op': 'clock', 'ns': clock_ns})
             probe('clock_step')
-            continue
+            return
         if kind == 'mutate':
             if op.get('obj') in objs:
                 objs[op['obj']].value = dec_value(op['v'])
                 probe('caller_changed_a_passed_cell_object_afterwards')
             log.append({'i': i, 'op': 'mutate'})
-            continue
+            return
         ex = exs[op['ex'] % n_ex]
         if kind == 'set':
             cells = [cell_for(c, dec_value(c['v']), setting=True) for c in op['cells']]
@@ -696,6 +740,11 @@ def execute(plan, ctx):
             except Exception as e:
                 out = outcome_of_exc(e)
             log.append({'i': i, 'op': 'sheet', 'out': out, 'ns': clock_ns})
+    if run_threads is not None:
+        run_threads()
+    else:
+        for i_, op_ in pending:
+            step(i_, op_)
     # ---- final observations (C08 iii)
     final = {'sizes': [[dict(d) for d in ex.get_executed_class().get_sheets_size()] for ex in exs]}
     result = {'log': log, 'probes': probes, 'steps': len(plan['ops'])}
@@ -1082,11 +1131,12 @@ def ref_handle(req):
         ns = {}
         exec(compile(src, '<reference>', 'exec'), ns)
         K = ns['ExcelInPython']
-        ex = Executor().set_executed_class(class_object=K)
         cells = {}
         for s, (cols, rows) in enumerate(req['grid']):
             for rr in range(rows):
                 for cc in range(cols):
+                    # "queried once": a new executor per coordinate, so the reference itself has no query history
+                    ex = Executor().set_executed_class(class_object=K)
                     cells['%d:%d:%d' % (s, cc, rr)] = _cell_outcome(lambda: ex.get_cell(Cell(s, cc, rr)))
         sheets = []
         for s in range(len(req['grid'])):
@@ -1097,14 +1147,16 @@ def ref_handle(req):
                 sheets.append(outcome_of_exc(e))
         return {'cells': cells, 'sheets': sheets}
     if req['kind'] == 'iso':
-        ns = {}
-        exec(compile(req['src'], '<reference>', 'exec'), ns)
-        K = ns['ExcelInPython']
+        code = compile(req['src'], '<reference>', 'exec')
         cells = {}
         for s, (cols, rows) in enumerate(req['grid']):
             for rr in range(rows):
                 for cc in range(cols):
-                    # a pristine executor per coordinate: no query history at all
+                    # a pristine executor over a pristine CLASS per coordinate: no query history at all, not even in
+                    # class-level or module-level state of the generated code
+                    ns = {}
+                    exec(code, ns)
+                    K = ns['ExcelInPython']
                     ex = Executor().set_executed_class(class_object=K)
                     if req['overrides']:
                         ex.set_cells([Cell(o[0], o[1], o[2], dec_value(o[3])) for o in req['overrides']])
@@ -1158,6 +1210,10 @@ def shrink(plan):
     if plan.get('env'):
         p = copy.deepcopy(plan)
         p['env'] = {}
+        yield p
+    if plan['swarm'].get('threads'):
+        p = copy.deepcopy(plan)
+        p['swarm']['threads'] = False
         yield p
     # one executor
     if plan['swarm']['n_ex'] > 1:
